@@ -1,12 +1,12 @@
 #!/venv/bin/python
 """Differential check of the TRANSLATOR tools/py2lean_elem.py for `Bar.__init__` / `Bar.copy` WITH A default_channel
-(finding D37 and its repair): the generated `Gen.Elem.barInit` / `Gen.Elem.barCopy` (Gen/ElemFns.lean) are run
+(finding D37 and its two repairs): the generated `Gen.Elem.barInit` / `Gen.Elem.barCopy` (Gen/ElemFns.lean) are run
 (`lake env lean`, `#eval`) on random inputs and compared with what the real implementation in SCODA_REPO does on
-the same inputs: `Bar(seq, n, d, key[, default_channel])` and then `.copy()` — relative view, both stale flags,
-numerator, denominator, key and the stored default_channel of the bar, of the copy, and of the bar after copying;
-default_channel not passed / None / 0 / 1 / 3 / 15; sequences in the wrapper states rel / both / abs; ill-formed ones
-included.  Needs a source whose `Bar` stores `default_channel` (the repaired bar.py); Gen/ElemFns.lean must have been
-generated from the same source.
+the same inputs: `Bar(seq, n, d, key[, default_channel])`, then (every second case) `bar.sequence.set_channel(c)` — in Lean the
+translated `Gen.Wrap.setChannel` on the bar's sequence —, then `.copy()` — relative view, both stale flags, numerator,
+denominator and key of the bar, of the copy, and of the bar after copying; default_channel not passed / None / 0 / 1 / 3 / 15;
+sequences in the wrapper states rel / both / abs; ill-formed ones included.  Needs a source whose `Bar.copy` reads the channel
+off the bar's own time-signature message (fix_D37b); Gen/ElemFns.lean must have been generated from the same source.
 
     SCODA_REPO=<source> /venv/bin/python tools/diff_py2lean_elem.py [cases] [seed]
 
@@ -36,9 +36,8 @@ structure BarObs where
   num : Int
   den : Int
   key : Int
-  defaultChannel : Int
   deriving DecidableEq
-def obsBar (g : GBar) : BarObs := ⟨g.sequence.rel, g.sequence.absStale, g.sequence.relStale, g.num, g.den, g.key, g.defaultChannel⟩
+def obsBar (g : GBar) : BarObs := ⟨g.sequence.rel, g.sequence.absStale, g.sequence.relStale, g.num, g.den, g.key⟩
 """
 
 
@@ -46,7 +45,7 @@ def bar_obs(b):
     s = b.sequence
     key = None if b.key_signature is None else KEYS.index(b.key_signature)
     return (f"⟨{S.L_list(s._rel._messages)}, {S.L_bool(s._abs_stale)}, {S.L_bool(s._rel_stale)}, "
-            f"{S.L_int(b.time_signature_numerator)}, {S.L_int(b.time_signature_denominator)}, {S.L_int(key)}, {S.L_int(b.default_channel)}⟩")
+            f"{S.L_int(b.time_signature_numerator)}, {S.L_int(b.time_signature_denominator)}, {S.L_int(key)}⟩")
 
 
 def count(k):
@@ -90,14 +89,21 @@ def main():
             continue
         init_obs = bar_obs(b)
         cases.append((f"init#{i}", f"decide (obsBar <$> {call} = Except.ok {init_obs})"))
+        # every second bar is moved to another channel in place before it is copied (audit round 4, D1)
+        moved = None
+        if rng.random() < 0.5:
+            moved = rng.choice([0, 1, 3, 5, 15])
+            b.sequence.set_channel(moved)
         kind2, c = S.run(lambda: b.copy())
-        count(("copy", str(dch), kind2 if kind2 != "err" else c))
-        ccall = f"({call} >>= fun g => (fun p => (obsBar p.1, obsBar p.2)) <$> Gen.Elem.barCopy genEnv g)"
+        count(("copy", str(dch), "moved" if moved is not None else "as-built", kind2 if kind2 != "err" else c))
+        pre = call if moved is None else (f"({call} >>= fun g0 => (fun r => ({{ g0 with sequence := r.1 }} : GBar)) <$> "
+                                          f"Gen.Wrap.setChannel genEnv g0.sequence {S.L_int(moved)})")
+        ccall = f"({pre} >>= fun g => (fun p => (obsBar p.1, obsBar p.2)) <$> Gen.Elem.barCopy genEnv g)"
         if kind2 == "ok":
             cases.append((f"copy#{i}", f"decide ({ccall} = Except.ok ({bar_obs(b)}, {bar_obs(c)}))"))
-            if dch not in ("absent", None, 0):
-                first = c.sequence._rel._messages[0]
-                count(("copy-leading-channel", "same" if first.channel == dch and c.default_channel == dch else "DIFFERENT"))
+            want = moved if moved is not None else (0 if dch in ("absent", None) else dch)
+            first = c.sequence._rel._messages[0]
+            count(("copy-leading-channel", "the bar's current one" if first.channel == want else "DIFFERENT"))
         elif kind2 == "err":
             cases.append((f"copy#{i}", f"decide ({ccall} = Except.error Err.{c})"))
 
